@@ -6,3 +6,4 @@ import Indi.Properties.C10
 #print axioms Indi.Num.C10_d_denotes
 #print axioms Indi.Num.C10_parse_denotes
 #print axioms Indi.Num.C10_sexa_roundtrip
+#print axioms Indi.Num.sexa_table_pinned
